@@ -8,7 +8,7 @@
 
 int main(int argc, char** argv)
 {
-	if (argc < 3 || (std::string(argv[1]) != "load" && std::string(argv[1]) != "save" && std::string(argv[1]) != "fault" && std::string(argv[1]) != "roundtrip")) { fprintf(stderr, "usage: scn_json load|save <file>\n"); return 3; }
+	if (argc < 3 || (std::string(argv[1]) != "load" && std::string(argv[1]) != "save" && std::string(argv[1]) != "fault" && std::string(argv[1]) != "roundtrip" && std::string(argv[1]) != "fixedpoint")) { fprintf(stderr, "usage: scn_json load|save <file>\n"); return 3; }
 	if (std::string(argv[1]) == "fault")
 	{
 		// each line: scenario + "fault":{"kind":..,"k":..}
@@ -18,6 +18,16 @@ int main(int argc, char** argv)
 			scn.Parse(flines[r].c_str());
 			const std::string doc = scn.HasMember("doc") ? vh::BytesFromJson(scn["doc"]) : std::string();
 			const std::string res = vh::RunFault<BitSerializer::Json::RapidJson::JsonArchive>(scn, doc, scn["fault"]["kind"].GetString(), scn["fault"]["k"].GetInt64());
+			fprintf(stdout, "{\"run\":%zu,\"id\":\"%s\",%s\n", r, scn["id"].GetString(), res.c_str() + 1);
+		});
+	}
+	if (std::string(argv[1]) == "fixedpoint")
+	{
+		const auto rlines = vh::ReadLines(argv[2]);
+		return vh::ForkedRunner(rlines.size(), [&](size_t r) {
+			rapidjson::Document scn;
+			scn.Parse(rlines[r].c_str());
+			const std::string res = vh::RunFixedPoint<BitSerializer::Json::RapidJson::JsonArchive>(scn, vh::BytesFromJson(scn["doc"]));
 			fprintf(stdout, "{\"run\":%zu,\"id\":\"%s\",%s\n", r, scn["id"].GetString(), res.c_str() + 1);
 		});
 	}
